@@ -65,6 +65,8 @@ def _wrappings(parts):
         yield "spread-all", "mutation { ...Steps } fragment Steps on Mutation { %s }" % plain
         yield "inline-all", "mutation { ... on Mutation { %s } }" % plain
         yield "inline-tail", "mutation { %s ... { %s } }" % (parts[0], " ".join(parts[1:]))
+        yield "inline-head", "mutation { ... on Mutation { %s } %s }" % (parts[0], " ".join(parts[1:]))
+        yield "inline-untyped-head", "mutation { ... { %s } %s }" % (parts[0], " ".join(parts[1:]))
         yield "spread-head", "mutation { ...Head %s } fragment Head on Mutation { %s }" % (" ".join(parts[1:]), parts[0])
         # the first key is selected directly and again inside a later fragment (merged): its position must not move
         yield "dup-in-spread", "mutation { %s ...Rest } fragment Rest on Mutation { %s %s }" % (parts[0], " ".join(parts[1:]), parts[0])
@@ -154,6 +156,8 @@ def _overrides(paths, tier):
     for p in paths:
         for o in ("err", "null"):
             yield {p: o}
+        if "." not in p:
+            yield {p: "err-sub"}  # a user-defined subclass of ResolverError
         if p.split(".")[-1] == "m4":
             # a lazily evaluated list result whose iteration fails after the first item was handed out
             yield {p: "lazy-err"}
